@@ -12,6 +12,7 @@
 (*                                                                         *)
 (* Nodes[i+1] = [id, pre, x, e] is the implementation state with id i: pre  *)
 (* its projection onto Channel's variables, x whether it was expanded, e    *)
+(* r0 whether a signer restored from the store equals the running one, e    *)
 (* its outgoing edges, each a tuple                                         *)
 (*   <<to, request index, ok, sec, pt, flag, changed mask, restart equal>>  *)
 (* (changed mask: 1 enforcement state, 2 node state, 4 store).              *)
@@ -64,7 +65,9 @@ Divergent == EdgesWhere(LAMBDA nd, e : ~Conforms(nd.pre, e))
 
 \* 3. frame (C10) and restart (C11) observations
 FrameBad   == EdgesWhere(LAMBDA nd, e : e[3] = 0 /\ e[7] # 0)
-RestartBad == EdgesWhere(LAMBDA nd, e : e[8] = 0)
+\* an edge is charged with a restart inequality only if its source state was restart-equal (r0)
+RestartBad == EdgesWhere(LAMBDA nd, e : nd.r0 = 1 /\ e[8] = 0)
+Tainted    == {i \in DOMAIN Nodes : Nodes[i].r0 = 0}
 NEdges     == FoldLeft(LAMBDA acc, nd : acc + Len(nd.e), 0, Nodes)
 
 Describe(p) == LET nd == Nodes[p[1]] e == nd.e[p[2]] IN
@@ -78,7 +81,8 @@ Report ==
     edges       |-> NEdges,
     divergences |-> SetToSeq({Describe(p) : p \in Divergent}),
     frame_bad   |-> SetToSeq({Describe(p) : p \in FrameBad}),
-    restart_bad |-> SetToSeq({Describe(p) : p \in RestartBad}) ]
+    restart_bad |-> SetToSeq({Describe(p) : p \in RestartBad}),
+    tainted_states |-> Cardinality(Tainted) ]
 
 ASSUME JsonSerialize(IOEnv.CH_REPORT, Report)
 =============================================================================
